@@ -9,7 +9,7 @@ raw AEAD
   enc <key> <nonce> <pt>            => ok:<c> | err:<class>          cryptoFunc.Encrypt, random source pinned to <nonce>
   dec <key> <c>                     => ok:<pt> | err:<class> | panic cryptoFunc.Decrypt
 (a) SDK writes / reference reads
-  case <n>                          forget the rows of the previous case
+  case <i> <seed>                   forget the rows of the previous case (the pair regenerates the case)
   row <id> <created> <json>         one metastore row as the SDK stores it (json.Marshal of the record)
   chain <master> <part> <svc> <prod> <sfx|nil> <drrjson> => ok:<payload>
 (b) reference writes / SDK reads (two passes; `md_fmt answer` is the reference ENCODER)
@@ -191,6 +191,41 @@ def cmp (mine obs : String) : Verdict := if mine == obs then .same else .mismatc
 
 def jsonOf (s : Str) : String := hexStr s
 
+/-- structural equality of JSON values (member order included: the documented emission order). -/
+partial def jvEq : JV → JV → Bool
+  | .null, .null => true
+  | .bool a, .bool b => a == b
+  | .num a, .num b => a == b
+  | .str a, .str b => a == b
+  | .arr a, .arr b => a.length == b.length && (a.zip b).all fun (x, y) => jvEq x y
+  | .obj a, .obj b => a.length == b.length && (a.zip b).all fun ((k, x), (l, y)) => k == l && jvEq x y
+  | _, _ => false
+
+/-- Go's JSON text for a record against the reference value: same bytes / same value but other
+bytes (escaping, white space: a MISMATCH of the two encoders) / another shape (members, order,
+presence: the documented format is violated, with this record as the failing input). -/
+def jsonVerdict (mine : String) (want : JV) (obs : String) : Verdict :=
+  if mine == obs then .same else
+  match (unhexStr obs).bind parseJson with
+  | some v => if jvEq v want then .mismatch mine
+              else .monitor "Go's JSON for this record has another shape (members / order / presence) than the documented one"
+  | none => .monitor "Go's JSON for this record is not readable as JSON by the reference"
+
+/-- a decoding op: when the input is exactly what the reference ENCODER emits for the record it decodes to
+(canonical, documented form) and Go reads something else, the SDK cannot read reference output — a
+concrete failing input; on other (variant) inputs a difference is a disagreement of the two decoders. -/
+def loadVerdict (mine obs : String) (canonical : Bool) : Verdict :=
+  if mine == obs then .same
+  else if canonical then .monitor s!"the SDK reads a documented-form input differently from the reference: {obs.take 80}"
+  else .mismatch mine
+
+/-- an encoding op: when the reference DECODER does not get the record back from what Go stored, the
+stored form is not the documented one — a concrete failing input; otherwise a difference of encoders. -/
+def storeVerdict (mine obs : String) (readable : Bool) : Verdict :=
+  if mine == obs then .same
+  else if readable then .mismatch mine
+  else .monitor s!"the reference decoder does not recover the record from what Go stores: {obs.take 100}"
+
 def pbObs : PbOut → String
   | .panic => "panic"
   | .ok p =>
@@ -246,7 +281,7 @@ def evalOp (s : St) (ws : List String) (obs : String) : St × Verdict :=
       let k ← unhex k; let c ← unhex c
       pure (cmp (showRes (goDecrypt Aes.cipher k c)) obs)
     ret { s with aead := s.aead + 1, aeadErr := s.aeadErr + (if obs.startsWith "err" then 1 else 0) } v
-  | ["case", _] => ({ s with rows := [], cases := s.cases + 1 }, .same)
+  | ["case", _, _] => ({ s with rows := [], cases := s.cases + 1 }, .same)
   | ["row", id, c, js] =>
     match (do let id ← unhexStr id; let c ← int64Of c; let js ← unhexStr js; pure (⟨id, c, js⟩ : Row)) with
     | some r =>
@@ -267,66 +302,84 @@ def evalOp (s : St) (ws : List String) (obs : String) : St × Verdict :=
   | "json-ekr" :: rest =>
     ret { s with json := s.json + 1 } do
       let e ← parseEKR rest
-      let mine := jsonOf (encodeEKR e)
-      if mine == obs then pure .same else
-      match (unhexStr obs).bind decodeEKR with
-      | some e' => if e' = e then pure (.mismatch mine) else pure (.monitor "Go's JSON of the key record decodes to a different record under the documented format")
-      | none => pure (.monitor "Go's JSON of the key record is not readable under the documented format")
+      pure (jsonVerdict (jsonOf (encodeEKR e)) e.toJson obs)
   | "json-drr" :: rest =>
     ret { s with json := s.json + 1 } do
       let d ← parseDRR rest
-      let mine := jsonOf (encodeDRR d)
-      if mine == obs then pure .same else
-      match (unhexStr obs).bind decodeDRR with
-      | some d' => if d' = d then pure (.mismatch mine) else pure (.monitor "Go's JSON of the data row record decodes to a different record under the documented format")
-      | none => pure (.monitor "Go's JSON of the data row record is not readable under the documented format")
+      pure (jsonVerdict (jsonOf (encodeDRR d)) d.toJson obs)
   | ["unjson-ekr", js] =>
     ret { s with unjson := s.unjson + 1 } do
       let t ← unhexStr js
-      pure (cmp (match decodeEKR t with | some e => ekrObs e | none => "err") obs)
+      pure (match decodeEKR t with
+        | some e => loadVerdict (ekrObs e) obs (encodeEKR e == t)
+        | none => cmp "err" obs)
   | ["unjson-drr", js] =>
     ret { s with unjson := s.unjson + 1 } do
       let t ← unhexStr js
-      pure (cmp (match decodeDRR t with | some d => drrObs d | none => "err") obs)
+      pure (match decodeDRR t with
+        | some d => loadVerdict (drrObs d) obs (encodeDRR d == t)
+        | none => cmp "err" obs)
   | "sql-store" :: id :: c :: rest =>
     ret { s with sql := s.sql + 1 } do
       let idS ← unhexStr id; let c ← int64Of c; let e ← parseEKR rest
       let r := sqlRowOf idS c e
-      pure (cmp s!"{hexStr r.id} {r.created.toInt} {hexStr r.keyRecord}" obs)
+      let readable := match words obs with
+        | [i, c', t] => i == hexStr idS && c' == toString c.toInt && ((unhexStr t).bind decodeEKR) == some e
+        | _ => false
+      pure (storeVerdict s!"{hexStr r.id} {r.created.toInt} {hexStr r.keyRecord}" obs readable)
   | ["sql-load", js] =>
     ret { s with sql := s.sql + 1 } do
       let t ← unhexStr js
-      pure (cmp (match sqlRowDecode ⟨[], 0, t⟩ with | some e => ekrObs e | none => "err") obs)
+      pure (match sqlRowDecode ⟨[], 0, t⟩ with
+        | some e => loadVerdict (ekrObs e) obs (encodeEKR e == t)
+        | none => cmp "err" obs)
   | "ddb1-store" :: id :: c :: rest =>
     ret { s with ddb := s.ddb + 1 } do
       let idS ← unhexStr id; let c ← int64Of c; let e ← parseEKR rest
-      pure (cmp (flatText (itemToAV1 idS c e)) obs)
+      let readable := match unflat obs with
+        | some (.m kvs) => ((lookup nKeyRecord kvs).bind avToEKR) == some e && avStr kvs nId == some idS && avInt64 kvs nCreated == some c
+        | _ => false
+      pure (storeVerdict (flatText (itemToAV1 idS c e)) obs readable)
   | "ddb2-store" :: id :: c :: rest =>
     ret { s with ddb := s.ddb + 1 } do
       let idS ← unhexStr id; let c ← int64Of c; let e ← parseEKR rest
-      pure (cmp (flatText (itemToAV idS c e)) obs)
+      let readable := match unflat obs with
+        | some item => avToItem item == some (idS, e) && (match item with | .m kvs => avInt64 kvs nCreated == some c | _ => false)
+        | none => false
+      pure (storeVerdict (flatText (itemToAV idS c e)) obs readable)
   | ["ddb1-load", flat] =>
     ret { s with ddb := s.ddb + 1 } do
       let item ← unflat flat
       -- aws-v1 Load hands only the KeyRecord attribute to the unmarshaler; the record id is not set
-      let mine := match item with
+      pure (match item with
         | .m kvs => match lookup nKeyRecord kvs with
-          | some kr => (match avToEKR kr with | some e => ekrObs e ++ " id:-" | none => "err")
-          | none => "err"
-        | _ => "err"
-      pure (cmp mine obs)
+          | some kr => (match avToEKR kr with
+            | some e => loadVerdict (ekrObs e ++ " id:-") obs (flatText (.m [(nKeyRecord, ekrToAV1 e)]) == flatText (.m [(nKeyRecord, kr)]))
+            | none => cmp "err" obs)
+          | none => cmp "err" obs
+        | _ => cmp "err" obs)
   | ["ddb2-load", flat] =>
     ret { s with ddb := s.ddb + 1 } do
       let item ← unflat flat
-      pure (cmp (match avToItem item with | some (id, e) => ekrObs e ++ " id:" ++ hexStr id | none => "err") obs)
+      pure (match avToItem item, item with
+        | some (id, e), .m kvs =>
+          loadVerdict (ekrObs e ++ " id:" ++ hexStr id) obs
+            (match lookup nKeyRecord kvs with
+             | some kr => flatText (.m [(nKeyRecord, ekrToAV e)]) == flatText (.m [(nKeyRecord, kr)])
+             | none => false)
+        | _, _ => cmp "err" obs)
   | "pb-to" :: rest =>
     ret { s with pb := s.pb + 1 } do
       let d ← parseDRR rest
-      pure (cmp (pbObs (toPb d)) obs)
+      let mine := pbObs (toPb d)
+      let readable := match toPb d, ((obs.drop 3).toString).splitOn ":" with
+        | .ok p, fields => (parsePB fields).map fromPb == some (fromPb p)
+        | .panic, _ => true
+      pure (storeVerdict mine obs readable)
   | "pb-from" :: rest =>
     ret { s with pb := s.pb + 1 } do
       let p ← parsePB rest
-      pure (cmp (drrObs (fromPb p)) obs)
+      pure (loadVerdict (drrObs (fromPb p)) obs true)
   | ["keyid", part, svc, prod, sfx] =>
     ret { s with keyids := s.keyids + 1 } do
       let part ← unhexStr part; let svc ← unhexStr svc; let prod ← unhexStr prod; let sfx ← sfxOf sfx
